@@ -68,7 +68,8 @@ func checksum(table []byte) uint32 {
 	// the above algorithm must be modified to treat the data as though
 	// it contains zero padding to a length that is a multiple of four."
 	if r := len(table) % 4; r != 0 {
-		table = append(table, make([]byte, r)...)
+		// pad to the next multiple of four, without writing into the spare capacity of the caller's slice
+		table = append(table[:len(table):len(table)], make([]byte, 4-r)...)
 	}
 
 	var sum uint32
